@@ -435,7 +435,47 @@ def rule_fresh_cursor(ctx):
     ctx.floor("C05.g fresh cursor properties", n, 3)
 
 
+def rule_whole_slice(ctx):
+    """C05.h: the rows a fetch returns are converted from the whole slice it advanced over. An arrow table is a list of chunks
+    (DuckDB starts a new one every so many rows); `to_batches()` / `.chunks` of a slice that spans a boundary has several
+    elements, so picking one of them by a constant index drops the rest while the fetch index moves past them."""
+    prog = ctx.prog
+    n = 0
+    fn = prog.fn("cursor", "FakeSnowflakeCursor.fetchmany")
+    loc = prog.mod("cursor").loc(fn)
+    for dict_result in (False, True):
+        for (p, cur) in _run(prog, "fetchmany", [Sym("SIZE", typ="int", truthy=True)], _table, Const(None), dict_result=dict_result):
+            if p.outcome != "return":
+                continue
+            n += 1
+            one = None
+            for x in _prov_nodes(p.value):
+                if not (isinstance(x, Sym) and x.origin):
+                    continue
+                recv = None
+                if x.origin[0] == "index" and isinstance(x.origin[2], Const) and isinstance(x.origin[2].v, int):
+                    recv = x.origin[1]
+                elif x.origin[0] == "method" and x.origin[2] in ("chunk",):
+                    one = x
+                    break
+                if recv is not None and any(isinstance(y, Sym) and y.origin and ((y.origin[0] == "method" and y.origin[2] in ("to_batches", "iterchunks", "to_reader"))
+                                                                                 or (y.origin[0] == "attr" and y.origin[-1] == "chunks")
+                                                                                 or tagof(y).endswith(".chunks")) for y in _prov_nodes(recv)):
+                    one = x
+                    break
+            kind = "dict" if dict_result else "tuple"
+            ctx.ob("C05.h", f"fetchmany ({kind} cursor): rows come from the whole slice, not from one chunk of it", one is None, loc,
+                   "" if one is None else tagof(one)[:80])
+            if one is not None:
+                ctx.violation("C05.h", "cursor", "FakeSnowflakeCursor.fetchmany", f"{kind} rows converted from a single chunk of the slice", loc,
+                              f"the returned rows derive from `{tagof(one)[:80]}`: one chunk of the slice. A result larger than one arrow chunk "
+                              f"(DuckDB starts a new chunk every 1,000,000 rows) loses the rows of the other chunks although the fetch index "
+                              f"advances over them: fetchall() returns fewer rows than the result has")
+    ctx.floor("C05.h fetchmany paths", n, 2)
+
+
 RULES = [
+    ("C05.h", rule_whole_slice, ("quick", "thorough")),
     ("C05.g", rule_fresh_cursor, ("quick", "thorough")),
     ("C05.f", rule_pandas_all, ("quick", "thorough")),
     ("C05.a", rule_reset, ("quick", "thorough")),
